@@ -17,19 +17,47 @@ completely (file-id strings over the escape alphabet up to length 4, all 1- and
 Oracle: the round-trip laws of the statement evaluated on the real functions
 only (no model involved).
 
-Findings handled here (DESIGN §7 F1, F14): the model's `bzrUrlToGitUrl` /
-`getParentLocation` are the inverse the theorems are about; the code as found is
-modelled by `...Legacy`.  When the real code fails a round trip the oracle
-reports it with a family computed from the concrete input:
+Between set_parent and get_parent lies dulwich's ConfigFile: the model has its
+value codec (`cfgFormat` = _format_string, `cfgParse` = _parse_string,
+`cfgReread` = write_to_file + from_file, `subsecEscape`) and the theorems
+cfg_value_roundtrip / cfg_file_roundtrip / parent_location_roundtrip_file say
+for which values the stored configuration is read back unchanged
+(`cfgValueSafe`: no CR; and no `;`, no VT/FF at either end unless the value is
+quoted anyway).  T2 `sec_cfg`: the codec against the real dulwich functions and
+a real write + read; the parent stream compares the stored configuration with
+`setpf` (set_parent followed by the model's re-read).
+
+NEW finding families of the unchanged /repo (improvement round; the check exits
+1 on /repo until the coordinator triages them; repro scripts in
+/var/tmp/imp-C35C36/c36/):
+  parent-unnamed-branch-drops-ref      a branch without a name (detached HEAD) has no [branch "<name>"] section:
+                                       set_parent(url,branch=foo) is followed by get_parent() == url
+                                       (theorems parent_location_unnamed, parent_location_unnamed_witness)
+  parent-config-value-semicolon        dulwich writes a value containing `;` unquoted and reads it back cut at the
+                                       `;`: a parent branch `a;b` comes back as `a` (cfg_value_witness,
+                                       parent_location_semicolon_witness); -cr / -stripped are the same for a CR
+                                       and for VT/FF at the ends (not generated: not legal in refs)
+  parent-config-section-quote-comment  branch name with `"` followed by `#`/`;` (q"#x): the section header dulwich
+                                       writes cannot be parsed again, the whole config file becomes unreadable
+
+Findings fixed in /repo (DESIGN §7 F1, F14, F15; fixes 5b3d902, eb9cca4, ef03ad7):
+the model's `bzrUrlToGitUrl` / `getParentLocation` are the inverse the theorems
+are about; the code as found earlier is modelled by `...Legacy` (witness
+theorems only).  No difference between code and model is tolerated any more: a
+regression to the legacy behaviour is a T2 mismatch AND a plain VIOLATION with
+its family computed from the concrete input (verified by reverting each fix):
   url-ref-param-dropped       ref=... parameter written by git_url_to_bzr_url is not read back
   url-branch-left-escaped     branch name that needs %-escaping comes back escaped
   parent-merge-section        set_parent writes [branch "<name>"] merge, get_parent reads [branch "<remote>"]
   parent-merge-escaped        set_parent stores the still-escaped branch name as merge ref (consequence of F1)
   non-url-location-drops-ref  git_url_to_bzr_url returns a location that is neither a URL nor rsync-style (a
                               local path, as stored for a file: parent) early, without the branch/ref (F15)
-A model/implementation difference is *not* recorded as a T2 mismatch only when
-the implementation agrees exactly with the legacy model on that input and the
-input belongs to one of these families; anything else is a mismatch.
+URL theorems added: url_roundtrip_rev (breezy -> git -> breezy is the identity on
+canonical URLs), the comma hypothesis weakened to the LAST path segment
+(`lastSegCommaFree`; url_trailing_comma_witness for the rest; the generator now
+puts commas into inner segments), url_refOk_witness (refs/heads/refs/x and
+refs/heads/ at URL level; the real behaviour is compared with the model on
+these inputs).
 
 Mutants this check was built against (applied to the tree with the proposed
 fixes, all caught with a concrete input unless noted):
@@ -47,6 +75,14 @@ fixes, all caught with a concrete input unless noted):
               (caught by the getter-only stream, T2)
 Harmless rewrites that stay clean: KNOWN_GIT_SCHEMES reordered; branch_name_to_ref
 restructured; escape_file_id as a single pass over a table.
+Improvement round (seed 0; /var/tmp/imp-C35C36/dev/m*.py; violations beyond the three new families):
+  revert 5b3d902 (Rust: `ref` not read, branch left escaped) — 2037 + 1711 + 229 family violations, 2459 mismatches;
+  revert eb9cca4 (merge ref read from [branch "<remote>"]) — violations + 235 mismatches;
+  revert ef03ad7 (non-URL location returned early) — 169 violations, 196 mismatches;
+  urls.py: parameters dropped when the location has a comma anywhere — oracle, through inner-segment commas (new);
+  branch.py: merge ref `.strip()`ped when read — oracle, through refs with a trailing blank (new generator);
+  branch.py: set_parent writes [branch ""] for an unnamed branch — T2 (11 mismatches);
+  harmless: url / fetch written in the other order — stays as /repo.
 """
 import itertools
 import os
@@ -82,10 +118,15 @@ ASSUMPTIONS = [
     "Python bytes/str are modelled as lists of naturals (< 256 for bytes, code points for str)",
     "ssh:// URLs are re-serialised by str(URL) as the identity apart from the scheme (grammar without empty ports and without percent-escapes that str(URL) normalises)",
     "set_parent: target URLs are not relative to the branch's own URL (relative_url is the identity); file: URL parents are covered by the oracle only",
+    "ConfigFile: section headers `[branch \"<name>\"]` / `[remote \"<name>\"]` are read back as written (subsection_roundtrip covers the escaping; "
+    "the header-line scanner with its comment stripping is not modelled: names with a quote followed by # or ; are the reported family "
+    "parent-config-section-quote-comment); values never end in an odd number of backslashes after escaping, so no line continuation arises",
+    "get_config (local file) vs get_config_stack (global + local) are not distinguished: the run uses an isolated HOME without a global git config",
 ]
 TRUSTED = [
     "dromedary.urlutils (escape, unescape, split/join_segment_parameters, URL), urllib.parse.quote_from_bytes, "
-    "dulwich parse_rsync_url and ConfigFile, CPython's UTF-8 codec are modelled and compared per case, not verified",
+    "dulwich parse_rsync_url, CPython's UTF-8 codec are modelled and compared per case, not verified; dulwich ConfigFile's value "
+    "codec (_format_string/_parse_string/_escape_subsection) is modelled literally and tied per case (private functions of dulwich 1.2)",
 ]
 
 # --------------------------------------------------------------------------
@@ -1471,8 +1512,13 @@ def replay(ctx, case):
                              "getp %s %s" % (cfg_str(o["after"]), cps(name))])
             model.append(dict(setp=rep[0], getp=rep[1] if rep[1].startswith(("E:", "~")) else uncps(rep[1])))
             if o["set"] == "ok" and (not o["full_ok"] or not equivalent_urls(I, o["full"], loc)):
+                fam = None
+                if o["after"] != UNREADABLE:
+                    fam = parent_family(I, name, pre if pre is not None else b"origin", loc, o)
+                if fam is None:
+                    fam = parent_new_family(I, name, loc, o, rep[0])
                 ctx.violation(case, "branch %r: set_parent(%r) then get_parent() = %r" % (name, loc, o["full"]),
-                              family=parent_family(I, name, pre if pre is not None else b"origin", loc, o))
+                              family=fam)
     elif k == "parent-get":
         name = unjs(case["name"])
         entries = [tuple(unjb(x) for x in e) for e in case["entries"]]
